@@ -1,4 +1,5 @@
 from .common import run_property
+from symg import opvalidate
 
 TABLE = [
     dict(h="slice_1d_subarray", fn="slices::get_slice_shape_1d + slice_1d_index", key="slice_1d|overflow-or-oob",
@@ -19,5 +20,6 @@ if __name__ == "__main__":
                           "whole-graph evaluation: Context/Graph construction is out of CBMC's reach (580 s / 15 GB for a 3-node graph)",
                           "every function that takes a ciphercore Type or TypedValue (dot/matmul/gemm typing rules and evaluators, Value::check_type, gather): the recursive Arc-based Type drop glue makes even a 2-byte check_type harness exceed 400 s; "
                           "for these, 'value has the shape of the inferred type, no panic' is observed only by the graph-SMT engine: Value::check_type(node type) on every node of every validation run and catch_unwind around every stage (sampled, not solver-decided)"],
-                 assumptions=[],
+                 assumptions=["supporting family (sampled, not solver-decided): %d-style differential of one-operation graphs, real SimpleEvaluator vs independent NumPy-style interpreter on boundary vectors, every node through Value::check_type, catch_unwind around every evaluation" % 0],
+                 extra=lambda chk: opvalidate.run(chk, "C09"),
                  explanation="bounded model checking of the index arithmetic shared by typing rules and evaluator loops: what is accepted when the node is added cannot fail or index out of bounds when run")
